@@ -194,18 +194,26 @@ func wrap3(seq []byte, k int) []byte {
 	}
 }
 
+// emitFn receives one generated input, the varying part of it and the generator's name.
+type emitFn func(in, probe []byte, harness string)
+
+// forEachC01Input runs the four C01 generators (shared with C05 and C06).
+func forEachC01Input(w *W, emit emitFn) {
+	c01E2(w, emit)
+	c01E1(w, emit)
+	c01E3(w, emit)
+	c01E4(w, emit)
+}
+
 func c01Body(w *W) {
 	s := &parseSession{}
-	c01E2(w, s)
-	c01E1(w, s)
-	c01E3(w, s)
-	c01E4(w, s)
+	forEachC01Input(w, func(in, probe []byte, harness string) { c01Judge(w, s, in, probe, harness) })
 	// fresh-object pass over the short end of the same spaces (no artificial reuse)
 	c01Fresh(w)
 }
 
 // E2: every byte string up to n over the 15-byte alphabet, bare and [..]-wrapped.
-func c01E2(w *W, s *parseSession) {
+func c01E2(w *W, emit emitFn) {
 	n := 6
 	if w.Thorough() {
 		n = 7
@@ -216,9 +224,9 @@ func c01E2(w *W, s *parseSession) {
 	var rec func(depth int)
 	rec = func(depth int) {
 		w.res.States++
-		c01Judge(w, s, buf, buf, "C01-E2-bare")
+		emit(buf, buf, "C01-E2-bare")
 		wrapped = append(append(append(wrapped[:0], '['), buf...), ']')
-		c01Judge(w, s, wrapped, buf, "C01-E2-wrapped")
+		emit(wrapped, buf, "C01-E2-wrapped")
 		if depth == n {
 			return
 		}
@@ -232,15 +240,15 @@ func c01E2(w *W, s *parseSession) {
 	// shard on the first two bytes
 	if w.Shard == 0 {
 		w.res.States++
-		c01Judge(w, s, nil, nil, "C01-E2-bare")
-		c01Judge(w, s, []byte("[]"), nil, "C01-E2-wrapped")
+		emit(nil, nil, "C01-E2-bare")
+		emit([]byte("[]"), nil, "C01-E2-wrapped")
 		for _, b := range c01Bytes {
 			buf = append(buf[:0], b)
 			w.res.States++
 			w.res.Transitions++
-			c01Judge(w, s, buf, buf, "C01-E2-bare")
+			emit(buf, buf, "C01-E2-bare")
 			wrapped = append(append(append(wrapped[:0], '['), buf...), ']')
-			c01Judge(w, s, wrapped, buf, "C01-E2-wrapped")
+			emit(wrapped, buf, "C01-E2-wrapped")
 		}
 	}
 	for _, b0 := range c01Bytes {
@@ -260,7 +268,7 @@ func c01E2(w *W, s *parseSession) {
 }
 
 // E1: every token sequence up to k over the token alphabet, in three stage-2 contexts.
-func c01E1(w *W, s *parseSession) {
+func c01E1(w *W, emit emitFn) {
 	run := func(name string, toks []string, k int) {
 		w.Note(fmt.Sprintf("%s: all sequences of <= %d tokens over %d tokens, bare / [..] / {\"k\":..}", name, k, len(toks)))
 		var seq []byte
@@ -268,7 +276,7 @@ func c01E1(w *W, s *parseSession) {
 		rec = func(depth int) {
 			w.res.States++
 			for ctx := 0; ctx < 3; ctx++ {
-				c01Judge(w, s, wrap3(seq, ctx), seq, name)
+				emit(wrap3(seq, ctx), seq, name)
 			}
 			if depth == k {
 				return
@@ -304,7 +312,7 @@ func c01E1(w *W, s *parseSession) {
 }
 
 // E3: probes at every offset relative to 64-byte blocks, white-space and dense padding.
-func c01E3(w *W, s *parseSession) {
+func c01E3(w *W, emit emitFn) {
 	var probes [][]byte
 	for _, a := range c01Tokens {
 		probes = append(probes, []byte(a))
@@ -352,7 +360,7 @@ func c01E3(w *W, s *parseSession) {
 					}
 					w.res.States++
 					w.res.Transitions++
-					c01Judge(w, s, in, p, "C01-E3-align")
+					emit(in, p, "C01-E3-align")
 				}
 			}
 		}
@@ -381,7 +389,7 @@ func densePrefix(n int) []byte {
 
 // E4: probes around the index-buffer flush (first and second buffer) and around the
 // 8 KiB sync/async threshold.
-func c01E4(w *W, s *parseSession) {
+func c01E4(w *W, emit emitFn) {
 	_, flushAt, _ := simdjson.VerifGeometry()
 	probes := c01Probes()
 	w.Note(fmt.Sprintf("E4: %d probes with their first structural on every index %d..%d and %d..%d (flush threshold read live: %d), plain and quote-at-edge; and total length 8192±70", len(probes), flushAt-28, flushAt+82, 2*flushAt-26, 2*flushAt+174, flushAt))
@@ -403,7 +411,7 @@ func c01E4(w *W, s *parseSession) {
 					in = append(in, ']')
 					w.res.States++
 					w.res.Transitions++
-					c01Judge(w, s, in, []byte(p), "C01-E4-flush")
+					emit(in, []byte(p), "C01-E4-flush")
 				}
 			}
 			if w.Expired() || w.TooManyViolations() {
@@ -430,7 +438,7 @@ func c01E4(w *W, s *parseSession) {
 			in = append(in, ']')
 			w.res.States++
 			w.res.Transitions++
-			c01Judge(w, s, in, []byte(p), "C01-E4-8k")
+			emit(in, []byte(p), "C01-E4-8k")
 		}
 		if w.Expired() || w.TooManyViolations() {
 			return
